@@ -31,12 +31,17 @@ type typeDictionary struct {
 	dict map[Node]map[string]*Typedef
 	// identities contains a dictionary of resolved identities.
 	identities identityDictionary
+	// resolving holds the typedefs whose resolution is in progress, so that
+	// a typedef defined in terms of itself is reported rather than
+	// resolved forever.
+	resolving map[*Typedef]bool
 }
 
 func newTypeDictionary() *typeDictionary {
 	return &typeDictionary{
 		dict:       map[Node]map[string]*Typedef{},
 		identities: identityDictionary{dict: map[string]resolvedIdentity{}},
+		resolving:  map[*Typedef]bool{},
 	}
 }
 
@@ -121,6 +126,12 @@ func (t *Typedef) resolve(d *typeDictionary) []error {
 	if t.Parent == nil || t.YangType != nil {
 		return nil
 	}
+
+	if d.resolving[t] {
+		return []error{fmt.Errorf("%s: typedef %s is defined in terms of itself", Source(t), t.Name)}
+	}
+	d.resolving[t] = true
+	defer delete(d.resolving, t)
 
 	if errs := t.Type.resolve(d); len(errs) != 0 {
 		return errs
